@@ -1,5 +1,6 @@
 """C18 - only documented errors escape; parsed charts always render."""
 from vf.runner import Ob
+from .common import _sync_section, _two_maps, _e2e  # noqa: F401
 from .common import *  # noqa: F401,F403
 
 LEVEL = "model_checking"
@@ -52,6 +53,8 @@ def obligations(tier):
         obs.append(Ob(f"C18.from_chart_line.kind{kind}", "CH", "harness.h_lines", "decode_line", 600, {"VF_KIND": kind, "VF_SYM": 0, "VF_MAXD": 2},
                       funcs=("*.ParsedData.from_chart_line",), bounds="after a successful match no exception; failed match RegexNotMatchError"))
     obs.append(Ob("C18.rx.header", "PY", "vf.rx_props", "c06_header", 120, funcs=("chartparse.chart.Chart._header_tag_regex",)))
+    obs.append(Ob("C18.e_word_forms", "CH", "harness.h_lines", "e_word_forms", 300, funcs=("chartparse.instrument.TrackEvent.ParsedData.from_chart_line", "chartparse.instrument.InstrumentTrack.from_chart_lines"),
+                  bounds="real recogniser and track parser on '<tick> = E <word>' with 14 unusual words (empty, quotes only, digits only, brackets, '=', ideographic space), with and without padding: decoded verbatim, rendered, no exception"))
     return obs
 
 
